@@ -37,6 +37,8 @@ type c19Case struct {
 	Events        []c19Event  `json:"events"`
 	Entries       []hookEntry `json:"entries"`
 	WorldWritable bool        `json:"world_writable"`
+	// Special: extra mode bits of the hooks directory (sticky as on /tmp, set-group-id): they change nothing about who may write
+	Special string `json:"special,omitempty"`
 	AgentLevel    bool        `json:"agent_level"`
 	// MidRound: 40 extra hooks; the first event is followed by a second change made while the first round is still being started
 	MidRound bool `json:"mid_round"`
@@ -45,7 +47,8 @@ type c19Case struct {
 const hooksLimit = 5 * time.Second
 
 func genC19(t *rapid.T) c19Case {
-	c := c19Case{AgentLevel: rapid.IntRange(0, 2).Draw(t, "agent") == 0, WorldWritable: rapid.IntRange(0, 5).Draw(t, "ww") == 0}
+	c := c19Case{AgentLevel: rapid.IntRange(0, 2).Draw(t, "agent") == 0, WorldWritable: rapid.IntRange(0, 4).Draw(t, "ww") == 0,
+		Special: rapid.SampledFrom([]string{"", "", "sticky", "sticky", "setgid", "sticky+setgid"}).Draw(t, "special")}
 	kinds := []string{"exec", "exec", "exec-x-other", "noexec", "hidden", "symlink-exec", "symlink-noexec", "dangling", "subdir", "fifo"}
 	for i, n := 0, rapid.IntRange(1, 5).Draw(t, "nentries"); i < n; i++ {
 		k := rapid.SampledFrom(kinds).Draw(t, "ekind")
@@ -90,6 +93,8 @@ func genC19(t *rapid.T) c19Case {
 	return c
 }
 
+var specialBits os.FileMode // set by the caller of mkHooks (sticky / set-group-id bits for the directory)
+
 func mkHooks(dir, logf string, entries []hookEntry, ww bool) error {
 	script := fmt.Sprintf("#!/bin/sh\necho \"$(basename \"$0\")|$#|$*|$WHAWTY_AUTH_STORE\" >> %s\n", logf)
 	for _, e := range entries {
@@ -130,7 +135,16 @@ func mkHooks(dir, logf string, entries []hookEntry, ww bool) error {
 	if ww {
 		mode = 0o757
 	}
-	return os.Chmod(dir, mode)
+	if err := os.Chmod(dir, mode|specialBits); err != nil {
+		return err
+	}
+	if fi, err := os.Stat(dir); err == nil && specialBits != 0 && fi.Mode()&specialBits == specialBits {
+		vlib.Class("hooks-dir-with-special-mode-bits")
+		if ww {
+			vlib.Class("hooks-dir-world-writable-with-sticky-or-setgid")
+		}
+	}
+	return nil
 }
 
 func eligibleNames(c c19Case) []string {
@@ -155,6 +169,13 @@ func runC19(c c19Case) string {
 	defer os.RemoveAll(root)
 	hdir, logf := filepath.Join(root, "hooks"), filepath.Join(root, "log")
 	os.Mkdir(hdir, 0o755)
+	specialBits = 0
+	if strings.Contains(c.Special, "sticky") {
+		specialBits |= os.ModeSticky
+	}
+	if strings.Contains(c.Special, "setgid") {
+		specialBits |= os.ModeSetgid
+	}
 	if err := mkHooks(hdir, logf, c.Entries, c.WorldWritable); err != nil {
 		return "VERIF-INFRA " + err.Error()
 	}
